@@ -7,6 +7,7 @@ import (
 	"sort"
 	"strings"
 	"testing"
+	"time"
 
 	"github.com/LiskHQ/lisk-engine/pkg/blockchain"
 	"github.com/LiskHQ/lisk-engine/pkg/db"
@@ -573,5 +574,74 @@ func TestDiffApplyRevert(t *testing.T) {
 			labels = append(labels, "delete-then-recreate-of-stored-key")
 		}
 		evid.R.Case("diff|"+strings.Join(log, ";"), recreate || blocks > 1, nil, labels...)
+	})
+}
+
+// A reorg performed by the engine itself - the LIP-0014 tie break inside Executer.process: the tip A (received outside its slot)
+// is replaced by its sibling B from the owner of the current slot. The node must end in the state of a twin that applied B
+// first, temp blocks included (the tie break parks nothing).
+func TestTieBreakReorg(t *testing.T) {
+	rapid.Check(t, func(t *rapid.T) {
+		nVal := rapid.IntRange(2, 5).Draw(t, "validators")
+		cfg := node.Config{Genesis: node.EqualGenesis(nVal), BatchSize: nVal + 1, MaxBlockCache: rapid.SampledFrom([]int{2, 5, 515}).Draw(t, "cache"),
+			KeepEvents: rapid.SampledFrom([]int{-1, 1, 3, 300}).Draw(t, "keepEvents")}
+		n, err := node.New(cfg)
+		if err != nil {
+			t.Fatalf("node: %v", err)
+		}
+		defer n.Close()
+		opts := node.GenOpts{MaxTxs: 3, AllowChange: true, AllowAgg: true, AllowStandby: true, AllowRotate: true}
+		var blocks []*blockchain.Block
+		var hist []string
+		for i := rapid.IntRange(1, 14).Draw(t, "history"); i > 0; i-- {
+			sp := n.DrawSpec(t, opts, map[string]bool{})
+			b, err := n.Apply(sp)
+			if err != nil {
+				t.Fatalf("harness-built block rejected: %v", err)
+			}
+			blocks = append(blocks, b)
+			hist = append(hist, describe(b, sp))
+		}
+		tip := n.Tip()
+		if tip.Header.Height <= n.Finalized() {
+			return
+		}
+		sib, ok := n.BuildTieBreakSibling(rapid.Uint32Range(100, 999).Draw(t, "salt"))
+		if !ok {
+			evid.R.Label("tie-break-sibling-not-constructible", 1)
+			return
+		}
+		now := time.Now()
+		n.Exec.VerifSetLastBlockReceived(&now)
+		if err := n.Exec.VerifProcess(node.CloneBlock(sib), "peer"); err != nil || !bytes.Equal(n.Tip().Header.ID, sib.Header.ID) {
+			t.Fatalf("valid tie-break sibling did not replace the tip: err=%v\nhistory:\n%s", err, strings.Join(hist, "\n"))
+		}
+		twin, err := node.New(withTS(cfg, n))
+		if err != nil {
+			t.Fatalf("twin: %v", err)
+		}
+		defer twin.Close()
+		for _, b := range blocks[:len(blocks)-1] {
+			if err := twin.Exec.VerifProcess(node.CloneBlock(b), "peer"); err != nil {
+				t.Fatalf("twin replay: %v", err)
+			}
+		}
+		if err := twin.Exec.VerifProcess(node.CloneBlock(sib), "peer"); err != nil || !bytes.Equal(twin.Tip().Header.ID, sib.Header.ID) {
+			t.Fatalf("twin rejects the sibling: %v", err)
+		}
+		f := n.Finalized()
+		if tf := twin.Finalized(); tf > f {
+			f = tf
+		}
+		pr := eventsPruned(cfg.KeepEvents, tip.Header.Height, f)
+		if d := diffDumps(filterT(n.Dump(), f, pr, true), filterT(twin.Dump(), f, pr, true)); d != "" {
+			t.Fatalf("after the tie break the node differs from a twin that applied the sibling first (temp blocks included):\n%s\nhistory:\n%s", d, strings.Join(hist, "\n"))
+		}
+		if a, b := snapshotLookups(n), snapshotLookups(twin); a != b {
+			t.Fatalf("lookups differ from the twin after the tie break:\nnode: %s\ntwin: %s", a, b)
+		}
+		evid.R.Case("tb|"+strings.Join(hist, "|"), true, func() any {
+			return map[string]any{"kind": "tie-break-reorg", "history": hist, "height": tip.Header.Height}
+		}, "tie-break-reorg")
 	})
 }
